@@ -234,6 +234,11 @@ theorem range_report_decodes (anchors : List (Nat × Nat)) (h : ∀ a ∈ anchor
 theorem range_report_distinct (anchors : List (Nat × Nat)) (hn : (anchors.map (·.1)).Nodup) : dictOf anchors = anchors :=
   dictOf_nodup anchors hn
 
+/-- in general each anchor id maps to the last distance reported for it in the packet -/
+theorem range_report_last_wins (anchors : List (Nat × Nat)) (id : Nat) :
+    (dictOf anchors).lookup id = anchors.reverse.lookup id :=
+  dictOf_lookup anchors id
+
 /-- A lighthouse angle-stream packet decodes, per axis, to the base sweep angle and `base - offsetₖ` where each
 offset is (a float holding) the IEEE binary16 value of the transmitted 16 bits — including ±0, subnormals, ±inf, NaN. -/
 theorem lh_angle_decodes (bs bx x1 x2 x3 by_ y1 y2 y3 : Nat) (hbs : bs < 256) (hbx : bx < 2 ^ 32) (hby : by_ < 2 ^ 32)
